@@ -3,6 +3,7 @@ mod common;
 mod eng_bereq;
 mod eng_client;
 mod eng_gpu;
+mod eng_kern;
 mod eng_server;
 mod eng_session;
 mod eng_txn;
@@ -55,6 +56,10 @@ fn main() {
             let cases = read_cases(&arg(&args, "--cases").expect("--cases"));
             let n: usize = arg(&args, "--random").and_then(|s| s.parse().ok()).unwrap_or(0);
             eng_valid::run(&cases, &mut trace, seed, n);
+        }
+        "kern" => {
+            let cases = read_cases(&arg(&args, "--cases").expect("--cases"));
+            eng_kern::run(&cases, &mut trace, seed);
         }
         "txn" => {
             let cases = read_cases(&arg(&args, "--cases").expect("--cases"));
